@@ -724,7 +724,11 @@ func genC16(g *Gen) {
 			if k%2 == 0 {
 				s0 = int64(1+r.Intn(n>>16))<<16 - int64(1+r.Intn(5))
 			}
-			qs = append(qs, []int64{s0, s0 + 2 + int64(r.Intn(9)), int64(1 + r.Intn(3))})
+			e0 := s0 + 2 + int64(r.Intn(9))
+			if e0 > int64(n) { // (a range must end inside the key set)
+				s0, e0 = int64(n)-(e0-s0), int64(n)
+			}
+			qs = append(qs, []int64{s0, e0, int64(1 + r.Intn(3))})
 		}
 		g.Case("cntpbig", J{"n": n, "stride": stride, "queries": qs})
 	}
